@@ -340,6 +340,7 @@ def sweep(ctx):
     mut.drop_stmt('transactions', 'Transaction.bumpfee', 'if remaining_fee:', 'fee bump does not fail when change cannot cover it', nth=0) if False else
     mut.replace_stmt('transactions', 'Transaction.bumpfee', 'raise TransactionError(\'Not enough unspent outputs to bump transaction fee\')', 'pass', 'fee bump does not fail when change cannot cover it'),
     mut.replace_expr(W, 'WalletTransaction.add_input_from_wallet', 'i.output_n_int', 'i.output_n', 'already used outpoints not recognised (bytes vs int)'),
+    mut.replace_stmt('transactions', 'Transaction.bumpfee', 'outp.value -= remaining_fee', 'outp.value -= extra_fee', 'later change output reduced by the full extra fee'),
     mut.replace_expr(W, 'WalletTransaction.add_input_from_wallet', 'self.hdwallet.utxos(self.account_id, network=self.network.name, min_confirms=min_confirms, key_id=key_id)', 'self.hdwallet.utxos(self.account_id, min_confirms=min_confirms, key_id=key_id)', 'fee bump takes its extra input from the default network'),
 ])
 def bump(ctx):
@@ -354,6 +355,12 @@ def bump(ctx):
     it = norm(loops[0].iter)
     ctx.saw('bumpfee reduces outputs from: %s' % it)
     ctx.require(it == '[o for o in self.outputs if o.change]', q, 'fee bump iterates over `%s`, expected only change outputs' % it, loops[0], 'a recipient receives less than requested after a fee bump')
+    # what is taken from a change output is what is still missing, not the whole increase (earlier change outputs were already used up)
+    subs = [n for n in ast.walk(loops[0]) if isinstance(n, ast.AugAssign) and isinstance(n.op, ast.Sub) and 'value' in unparse(n.target)]
+    ctx.saw('bumpfee subtracts from a change output: %s' % [norm(x) for x in subs])
+    for x in subs:
+        ctx.require(norm(x.value) == 'remaining_fee', q, 'a change output is reduced by `%s`, not by the fee that is still missing' % norm(x.value), x,
+                    'two change outputs 10000 and 6667, extra fee 12000: the first is used up (2000 missing), the second is reduced by 12000 to -5333: a negative output value')
     g = build_cfg(fn)
     fee_set = [n for n in g.nodes if n.kind == 'stmt' and isinstance(n.ast, ast.Assign) and unparse(n.ast.targets[0]) == 'self.fee']
     ok = bool(fee_set) and all(_raise_guard(g, n.id, 'remaining_fee', 'F') for n in fee_set)
